@@ -15,7 +15,7 @@ IDENTS = ['é', '名', 'ﬁ', '__x', 'print', 'async_']
 LEX = ['a', 'b', '1', '0', '1.', '.5', '1e3', '1j', '0x1f', "'s'", "f'{a}'", "b'x'", '(', ')', '[', ']', '{', '}', ',', ':', ';', '=', '.', '*', '**', '+', '-', '~',
        '<', '==', '@', '->', ':=', '...', '+=', 'not', 'and', 'if', 'else', 'for', 'in', 'is', 'lambda', 'pass', 'del', 'return', 'def', 'class', 'match', 'case', 'type',
        'await', 'async', 'yield', 'import', 'from', 'as', 'with', 'global', 'while', 'try', 'except', 'finally', 'raise', 'None', ' ', '\n', '\n ', '\\\n', '\r',
-       '\r\n', '\\\r', '\t', '#c', '\x0c']
+       '\r\n', '\\\r', '\t', '#c', '\x0c', 'é', "'é€'", '#é€']
 LEX_N = {'quick': 3, 'thorough': 4}
 
 
@@ -225,6 +225,8 @@ def judge(text, mode, obs):
         return 'bad', C.Fail(PROP, 'parse/%s · obs=%s' % (mode, K.bad_kind(obs)), 'parse', inp, obs, 'no panic')
     if ref is None:
         return ('py-reject/rs-reject' if 'err' in obs else 'py-reject/rs-accept'), None
+    if 'err' in obs and K.err_kind(obs) == 'Lexical(TabsAfterSpaces)':
+        return 'excluded: tab after space in indentation', None  # the property statement exempts this deliberate strictness
     if 'err' in obs:
         return 'over-reject', C.Fail(PROP, 'parse/%s · ref=ok · obs=err(%s)' % (mode, K.err_kind(obs)), 'parse', inp,
                                      {'err': K.err_kind(obs), 'off': obs.get('off')}, 'accepted by CPython')
@@ -241,11 +243,34 @@ def modes_for(toks):
     return ('exec', 'single')
 
 
+# header alphabet of the soft-keyword E-STR job: token sequences (space separated) placed in statement templates, so that every short
+# shape of a match subject, a case pattern/guard, an inline block body and a line starting with match/case/type is met
+HDR = ['a', '1', "'s'", '(', ')', '[', ']', '{', '}', ':', ',', '=', '.', '*', '|', 'lambda :', 'lambda a :', 'if', 'else', 'as', '_', 'match', 'case', 'type',
+       'not', 'in', ':=', '**', '-', 'for', 'await']
+HDR_TEMPLATES = ['%s\n', 'match %s :\n    case _ : pass\n', 'match a :\n    case %s : pass\n', 'if a : %s\n', 'a ; %s\n']
+HDR_N = {'quick': 4, 'thorough': 5}
+LAYOUT_N = {'quick': 4, 'thorough': 5}
+
+
+def lex_texts(kind, n, shard):
+    if kind == 'lex':
+        for text, l in X.shard_strings(LEX, n, shard):
+            yield text, 'lexemes n=%d' % l
+    elif kind == 'layout':
+        from .. import relcheck
+        for text, l in X.shard_strings(relcheck.LAYOUT_LEX, n, shard):
+            yield text, 'layout lexemes n=%d' % l
+    else:
+        for text, l in X.shard_strings([x + ' ' for x in HDR], n, shard):
+            for i, t in enumerate(HDR_TEMPLATES):
+                yield t % text.rstrip(' '), 'header template %d n=%d' % (i, l)
+
+
 def run_lex_shard(args):
-    _, n, shard = args
+    kind, n, shard = args
     r = C.Result()
     cases = []
-    for text, l in X.shard_strings(LEX, n, shard):
+    for text, l in lex_texts(kind, n, shard):
         r.transitions += 1
         # calibration: CPython's exec-mode reader appends one more newline to a text ending in CRLF (translate_newlines leaves c == 0 after a
         # skipped LF), so 'a\\<CR><LF>' is accepted while 'a\\<LF>' is "unexpected EOF". Validity cannot depend on the newline spelling: a text
@@ -267,7 +292,7 @@ def run_lex_shard(args):
             out, fail = judge(text, mode, obs)
             r.evaluations += 1
             r.outcomes['%s:%s' % (mode, out)] += 1
-            r.by_bound['lexemes n=%d' % l] += 1
+            r.by_bound[l] += 1
             hashes.add(h64(mode + '\0' + text))
             r.validated += 1
             if fail is not None:
@@ -277,7 +302,7 @@ def run_lex_shard(args):
 
 
 def run_shard(args):
-    if args[0] == 'lex':
+    if args[0] in ('lex', 'hdr', 'layout'):
         return run_lex_shard(args)
     paths, d, tier, start = args
     r = C.Result()
@@ -335,6 +360,9 @@ def run(tier, seed):
         for g in K.group_shards(shards, 400 if tier == 'thorough' else 96):
             jobs.append((g, d, tier, start))
     jobs += [('lex', LEX_N[tier], sh) for sh in X.prefix_shards(LEX, LEX_N[tier], 1 if tier == 'quick' else 2)]
+    jobs += [('hdr', HDR_N[tier], sh) for sh in X.prefix_shards(HDR, HDR_N[tier], 2)]
+    from .. import relcheck
+    jobs += [('layout', LAYOUT_N[tier], sh) for sh in X.prefix_shards(relcheck.LAYOUT_LEX, LAYOUT_N[tier], 1)]
     reduced = set()
     for r in C.pmap(run_shard, jobs):
         allh |= r.extra.pop('_hashes')
@@ -344,16 +372,19 @@ def run(tier, seed):
     total.nontrivial = len(allh)
     from .. import gimpl
     prods = gimpl.productions()
-    missing = sorted(set(prods) - reduced)
-    total.extra['grammar_coverage'] = {'productions_in_python_rs': len(prods), 'productions_reduced_by_the_corpus': len(reduced & set(prods)),
-                                       'not_reduced': ['%d: %s' % (i, prods[i][:100]) for i in missing[:80]]}
+    live = set(gimpl.live_productions(prods))
+    missing = sorted(live - reduced)
+    total.extra['grammar_coverage'] = {'productions_in_python_rs': len(prods), 'reachable_productions': len(live), 'reachable_productions_reduced_by_the_corpus': len(reduced & live),
+                                       'reduced_but_not_counted_reachable': len(reduced - live), 'not_reduced': ['%d: %s' % (i, prods[i][:110]) for i in missing[:400]]}
     rule = ('E-DERIV over G_ref (%d alternatives, start symbols file and expression): every derivation with at most %d non-default alternatives (transitions = derivations), '
             'each also with every single NAME position replaced by match/case/type/_ and by the identifier exemplars, rendered and parsed in Module + Interactive mode '
             '(Expression mode for the expression start symbol) and without the final newline; states = distinct_nontrivial = distinct (mode, text) pairs that CPython 3.11 accepts '
             '(those are the judged ones); PEP 695 sentences (which CPython 3.11 does not know) are judged against the reference obtained by erasure: type-parameter lists removed and '
             '"type X = v" rewritten to an assignment, parsed by CPython, then re-inserted structurally; plus E-STR: every concatenation (no separators) of <=%d lexemes of a %d-lexeme alphabet '
-            '(names, numbers, strings, operators, keywords, six newline/continuation forms, tab, form feed, comment) that CPython accepts, in Module/Interactive/Expression mode'
-            % (gref.n_alternatives(), d, LEX_N[tier], len(LEX)))
+            '(names, numbers, strings, operators, keywords, six newline/continuation forms, tab, form feed, comment) that CPython accepts, in Module/Interactive/Expression mode; and every sequence of <=%d tokens of a %d-token header alphabet '
+            '(brackets, colon, comma, lambda, if/else/as, match/case/type, walrus, star) placed in %d statement templates (a statement of its own, a match subject, a case pattern, an inline '
+            'block body, after a semicolon); and every concatenation of <=%d lexemes of the 16-lexeme layout alphabet (indentation pieces, continuations, line breaks, comment, form feed, block '
+            'opener, brackets, BOM)' % (gref.n_alternatives(), d, LEX_N[tier], len(LEX), HDR_N[tier], len(HDR), len(HDR_TEMPLATES), LAYOUT_N[tier]))
     return C.finish(PROP, tier, seed, t0, total, rule,
                     ['CPython 3.11 ast.parse(bytes) defines validity and the reference tree (interactive mode: the module-mode tree)',
                      'derive(Debug) is faithful; canonicalisers in vp/astcmp.py'], C.py_version())
